@@ -85,13 +85,13 @@ func constBytes(v ssa.Value) ([]byte, bool) {
 }
 
 func checkC01(c *Ctx) {
-	c.Rule("R1.1", "escape discipline: every write to an encoder buffer is a safe constant, a number, pre-escaped bytes, or goes through the escaper", 40)
-	c.Rule("R1.2", "escaper byte table evaluated over all 256 byte values", 5)
-	c.Rule("R1.3", "openers closed on every path; quotes paired around in-string writes; EncodeEntry tail order", 10)
-	c.Rule("R1.4", "AppendObject saves, zeroes, closes and restores the namespace counter on every path", 5)
-	c.Rule("R1.5", "separator established before the first write of every encoder method; ',' only from addElementSeparator; addKey order", 45)
-	c.Rule("R1.6", "every call through an optional sub-encoder function is nil-guarded or defaulted", 10)
-	c.Rule("R1.7", "user sub-encoder calls are followed by the wrote-nothing fallback", 5)
+	c.Rule("R1.1", "escape discipline: every write to an encoder buffer is a safe constant, a number, pre-escaped bytes, or goes through the escaper", 27)
+	c.Rule("R1.2", "escaper byte table evaluated over all 256 byte values", 3)
+	c.Rule("R1.3", "openers closed on every path; quotes paired around in-string writes; EncodeEntry tail order", 7)
+	c.Rule("R1.4", "AppendObject saves, zeroes, closes and restores the namespace counter on every path", 4)
+	c.Rule("R1.5", "separator established before the first write of every encoder method; ',' only from addElementSeparator; addKey order", 32)
+	c.Rule("R1.6", "every call through an optional sub-encoder function is nil-guarded or defaulted", 6)
+	c.Rule("R1.7", "user sub-encoder calls are followed by the wrote-nothing fallback", 3)
 	c.Rule("R1.8", "Field.AddTo converts marshaler errors into '<key>Error'; no encoder/marshaler error is discarded", 15)
 	c1Taint(c, "R1.1")
 	c1Escaper(c, "R1.2")
